@@ -289,7 +289,13 @@ func (this *partition) proposeAddNode(ctx context.Context, nodeId uint64) error 
 		return err
 	}
 
-	return this.raft.ProposeJoin(nodeId, "")
+	this.raftMu.RLock()
+	group := this.raft
+	this.raftMu.RUnlock()
+	if group == nil {
+		return RaftNotLoadedOnNodeErr
+	}
+	return group.ProposeJoin(nodeId, "")
 }
 
 func (this *partition) addNode(nodeId uint64) {
@@ -305,7 +311,14 @@ func (this *partition) proposeRemoveNode(ctx context.Context, nodeId uint64) err
 		return err
 	}
 
-	return this.raft.ProposeLeave(nodeId)
+	// The catalogue change above unloads this node's own group when the node removed is this one
+	this.raftMu.RLock()
+	group := this.raft
+	this.raftMu.RUnlock()
+	if group == nil {
+		return RaftNotLoadedOnNodeErr
+	}
+	return group.ProposeLeave(nodeId)
 }
 
 func (this *partition) removeNode(nodeId uint64) {
